@@ -25,7 +25,7 @@ PROFILE = S.profile(renames=0.1, dups=0.0, attrs=0.1)
 @st.composite
 def cases(draw, tier="quick"):
     spec = draw(S.enum_specs(PROFILE))
-    cfg = draw(S.configs(spec, force=("try_from", "TryFrom", "into", "Into"), p_on=0.35))
+    cfg = draw(S.configs(spec, force=("try_from", "TryFrom", "into", "Into"), p_on=0.35, p_sorted=0.15))
     return {"spec": spec, "cfg": cfg, "seed": draw(st.integers(0, 2 ** 31))}
 
 
